@@ -14,7 +14,7 @@ from concurrent.futures import ThreadPoolExecutor
 ROOT = os.path.dirname(os.path.dirname(os.path.abspath(__file__)))
 sys.path.insert(0, ROOT)
 PY = sys.executable
-REPO = "/repo"
+REPO = os.environ.get("VF_REPO", "/repo")   # VF_REPO: development only (run against a scratch worktree)
 
 
 def sh(cmd):
@@ -36,11 +36,12 @@ def tree_hash(files):
     return h.hexdigest()[:16]
 
 
-def run_worker(prop, oid, mode, extra, wall):
+def run_worker(prop, oid, mode, extra, wall, extra_env=None):
     cmd = [PY, "-m", "vf.worker", prop, oid, mode] + extra
     t0 = time.time()
     env = dict(os.environ)
-    env["PYTHONPATH"] = ROOT
+    env.update(extra_env or {})
+    env["PYTHONPATH"] = (REPO + os.pathsep + ROOT) if REPO != "/repo" else ROOT
     env["PYTHONHASHSEED"] = "0"
     try:
         p = subprocess.run(cmd, cwd=ROOT, capture_output=True, text=True, timeout=wall, env=env)
@@ -176,11 +177,11 @@ def main():
 
     # known findings: each must be shown to still reproduce, by concrete replay of its stored model
     for k in known:
-        o = reg.get(k["obligation"])
+        o = reg.get(k.get("replay_obligation") or k["obligation"])
         if o is None:
             print("NOTE known finding refers to unknown obligation", k["obligation"])
             continue
-        rp = run_worker(prop, o.id, "replay", [json.dumps(k["model"], ensure_ascii=False)], 300)
+        rp = run_worker(prop, o.id, "replay", [json.dumps(k["model"], ensure_ascii=False)], 300, {"VF_NO_KNOWN": "1"})
         if rp.get("reproduces"):
             print("KNOWN-FINDING: property=%s %s" % (prop, k["what"]))
         else:
